@@ -751,13 +751,13 @@ mod verif_replay_interp {
         run(doc, &evs)
     }
 
-    /// C01 (bounded, pseudo-random): for 150 (thorough tier: 1500) generated conformant documents and every event sequence of length <= 2 over
+    /// C01 (bounded, pseudo-random): for 150 (thorough tier: 500) generated conformant documents and every event sequence of length <= 2 over
     /// three event names (plus 3 longer ones), the configuration after each macrostep is legal; C02: running the same
     /// document and history again gives the same configuration
     #[test]
     fn verif_replay_interp_random_documents_legal_configurations() {
         let deep = std::env::var("VERIF_THOROUGH").is_ok();
-        let docs = if deep { 1500 } else { 150 };
+        let docs = if deep { 500 } else { 150 };
         let mut rng = Rng(0x5eed_2026);
         let names = ["e1", "e2", "e3"];
         for d in 0..docs {
